@@ -60,8 +60,23 @@ def arith_const():
     hdim2 = _one(r"unsigned short hoff\[([0-9]+)\];", f_rp, "http_response_parse_headers hoff[]")
     mrf = _one(r"^#define MAX_HTTP_RESPONSE_FIELD_SIZE\s+(\S+)\s*$", glue, "MAX_HTTP_RESPONSE_FIELD_SIZE", re.M)
 
+    # the two HTTP/2 callers of http_header_parse_hoff() (backend response headers / trailers)
+    h2dims = []
+    for fn in ("h2_send_headers_block", "h2_send_end_stream_trailers"):
+        f = _func(h2nc, fn)
+        h2dims.append(_one(r"unsigned short hoff\[([0-9]+)\];", f, fn + " hoff[]"))
+        _one(r"if \(0 == rc \|\| rc > USHRT_MAX \|\| hoff\[0\] >= sizeof\(hoff\)/sizeof\(hoff\[0\]\)-1", f,
+             fn + " limit test (rc > USHRT_MAX, hoff[0] >= dim-1)")
+    # server.max-request-field-size is read through the `unsigned short` member of the config value
+    cf = read_src("configfile.c")
+    _one(r'CONST_STR_LEN\("server\.max-request-field-size"\),\s*T_CONFIG_SHORT,', cf, "server.max-request-field-size config type")
+    _one(r"srv->srvconf\.max_request_field_size = cpv->v\.shrt;", cf, "server.max-request-field-size assignment")
     f_cont = _func(h2nc, "h2_recv_continuation")
     ccap = _one(r"n \+= 9\+flen;\s*if \(n >= ([0-9]+)\) \{", f_cont, "h2_recv_continuation accumulation cap")
+    rfs1 = _one(r"const uint32_t fsize = ([0-9]+);", f_cont, "h2_recv_continuation received-frame size limit")
+    rfs2 = _one(r"const uint32_t fsize = ([0-9]+);", _func(h2nc, "h2_parse_frames"), "h2_parse_frames received-frame size limit")
+    if rfs1 != rfs2:
+        raise ExtractError("h2_parse_frames / h2_recv_continuation disagree on the received-frame size limit")
     f_set = _func(h2nc, "h2_parse_frame_settings")
     fmin, fmax = _one(r"case H2_SETTINGS_MAX_FRAME_SIZE:\s*if \(v < ([0-9]+) \|\| v > ([0-9]+)\) \{", f_set,
                       "SETTINGS_MAX_FRAME_SIZE bounds")
@@ -76,25 +91,28 @@ def arith_const():
 #include <stdint.h>
 #include <sys/types.h>
 #include "buffer.c"
+#include "plugin_config.h"
 int main(void){
   unsigned short hoff[%(hdim1)s];
   printf("%%lld %%lld %%lld %%lld %%lld %%lld\n", (long long)(%(g1)s), (long long)(%(g2)s), (long long)(%(l1)s),
          (long long)(%(l1b)s), (long long)(%(l2)s), (long long)(%(sm)s));
   printf("%%lld %%lld %%lld %%lld %%lld %%lld\n", (long long)(%(hbrk)s), (long long)(%(hdim)s), (long long)(%(hdim1)s),
          (long long)(%(h431)s), (long long)(%(hdim2)s), (long long)(%(mrf)s));
-  printf("%%lld %%lld %%lld %%lld %%lld\n", (long long)(%(ccap)s), (long long)(%(fmin)s), (long long)(%(fmax)s),
-         (long long)(%(fdef)s), (long long)(%(tbsz)s));
+  printf("%%lld %%lld %%lld %%lld %%lld %%lld\n", (long long)(%(ccap)s), (long long)(%(fmin)s), (long long)(%(fmax)s),
+         (long long)(%(fdef)s), (long long)(%(tbsz)s), (long long)(%(rfs1)s));
+  printf("%%lld %%lld %%lld %%d\n", (long long)(%(h2d0)s), (long long)(%(h2d1)s), (long long)USHRT_MAX,
+         (int)(sizeof(((config_plugin_value_t *)0)->v.shrt)*8));
   printf("%%llu %%lld %%d %%d %%d %%d %%d\n", (unsigned long long)BUFFER_PIECE_SIZE, (long long)INT_MAX,
          (int)(sizeof(off_t)*8), (int)(sizeof(size_t)*8), (int)(sizeof(((buffer *)0)->used)*8),
          (int)(sizeof(((buffer *)0)->size)*8), (int)(sizeof(unsigned short)*8));
   return 0; }
 ''' % dict(g1=g1, g2=g2, l1=l1, l1b=l1b, l2=l2, sm=sm, hbrk=hbrk, hdim=hdim, hdim1=hdim1, h431=h431, hdim2=hdim2,
-           mrf=mrf, ccap=ccap, fmin=fmin, fmax=fmax, fdef=fdef, tbsz=tbsz)
+           mrf=mrf, ccap=ccap, fmin=fmin, fmax=fmax, fdef=fdef, tbsz=tbsz, rfs1=rfs1, h2d0=h2dims[0], h2d1=h2dims[1])
     out = c_dump(prog)
     try:
         rows = [[int(x) for x in l.split()] for l in out.strip().split("\n")]
         (cg1, cg2, cl1, cl1b, cl2, csm), (vbrk, vdim, vdim1, v431, vdim2, vmrf), \
-            (vcap, vfmin, vfmax, vfdef, vtb), (piece, intmax, offb, szb, usedb, sizeb, ushb) = rows
+            (vcap, vfmin, vfmax, vfdef, vtb, vrfs), (vh2d0, vh2d1, vushrt, vshrtbits), (piece, intmax, offb, szb, usedb, sizeb, ushb) = rows
     except (ValueError, IndexError):
         raise ExtractError("ArithConst dumper: unexpected output %r" % out[:300])
     s = "namespace LtVerif.Extracted\n\n"
@@ -113,11 +131,16 @@ int main(void){
     s += d("hoffDimH1", vdim1, "h1_recv_headers(): unsigned short hoff[N]")
     s += d("hoff431", v431, "h1_recv_headers(): 431 when hoff[0] >= N")
     s += d("hoffDimResp", vdim2, "http_response_parse_headers(): unsigned short hoff[N]")
+    s += d("hoffDimH2Hdr", vh2d0, "h2_send_headers_block(): unsigned short hoff[N] (same test as below)")
+    s += d("hoffDimH2Trl", vh2d1, "h2_send_end_stream_trailers(): unsigned short hoff[N]; both reject rc > USHRT_MAX and hoff[0] >= N-1")
+    s += d("ushrtMax", vushrt, "limits.h: USHRT_MAX (byte limit of the two HTTP/2 callers)")
+    s += d("maxRequestFieldSizeBits", vshrtbits, "configfile.c: server.max-request-field-size is T_CONFIG_SHORT and read from cpv->v.shrt: bits of that member")
     s += d("maxRespFieldSize", vmrf, "http-header-glue.c: MAX_HTTP_RESPONSE_FIELD_SIZE")
     s += d("h2ContCap", vcap, "h2_recv_continuation(): HEADERS+CONTINUATION accumulation of N bytes or more is a connection error")
     s += d("h2FrameSizeMin", vfmin, "h2_parse_frame_settings(): smallest accepted SETTINGS_MAX_FRAME_SIZE")
     s += d("h2FrameSizeMax", vfmax, "h2_parse_frame_settings(): largest accepted SETTINGS_MAX_FRAME_SIZE")
     s += d("h2FrameSizeDefault", vfdef, "h2_init_con(): initial s_max_frame_size")
+    s += d("h2RecvFrameMax", vrfs, "h2_parse_frames() / h2_recv_continuation(): limit on the length of received frames (lighttpd's advertised SETTINGS_MAX_FRAME_SIZE)")
     s += d("h2TmpBufSize", vtb, "h2_init_con(): tmp_buf prepared for this many bytes (HPACK scratch)")
     s += d("bufferPieceSize", piece, "buffer.c: BUFFER_PIECE_SIZE")
     s += d("cIntMax", intmax, "limits.h: INT_MAX")
